@@ -26,9 +26,22 @@ KINDS = {
 }
 
 
+# which properties depend on the functions verified by a whole contracts module (in addition to the
+# properties its tasks name themselves): lookups and mutators are read by every step / compilation,
+# constructors / init_vars / ElementWithVars.step write the values every step law reads, and
+# Network.step is the composition all step properties go through
+_LOOKUPS = ("C01", "C02", "C03", "C04", "C05", "C06", "C07", "C08", "C09", "C10", "C11", "C14", "C16", "C17", "C18", "C19")
+_WRITERS = ("C01", "C02", "C03", "C04", "C05", "C07", "C10", "C11", "C12", "C13", "C14", "C16", "C17", "C18", "C19")
+_NETSTEP = ("C01", "C02", "C03", "C05", "C07", "C10", "C11", "C12", "C13", "C14", "C16", "C17", "C18")
+DEPENDENTS = {"construct_tasks": _LOOKUPS, "views_content_tasks": _LOOKUPS, "writers_tasks": _WRITERS, "network_tasks": _NETSTEP}
+
+
 def relevant(prop, rec, res):
     kind = res["kind"]
     if kind == "unsupported":
+        return True
+    if rec.get("stratum") in ("construct_tasks", "views_content_tasks") and kind in FUNCTIONAL | {"frame", "fresh"}:
+        # coherence and content of the lookups: a stale or wrong lookup breaks whatever reads it
         return True
     if prop == "C07" and "Network.is_valid" in rec.get("func", "") and kind in ("post", "inv"):
         # C07 is about the networks validation accepts: that a valid verdict implies the nine conditions
